@@ -703,6 +703,65 @@ where
     ("c20-sqlite-prune-by-name", ["C20"], [], [(SQL + "lib.rs", """                "DELETE FROM group_state_snapshots WHERE created_at < ?",
                 rusqlite::params![min_timestamp as i64],""", """                "DELETE FROM group_state_snapshots WHERE created_at > ?",
                 rusqlite::params![min_timestamp as i64],""")]),
+    ("c02-echo-failed-arm-rewrites-record", ["C02"], [], [(CORE + "messages/error_handling.rs", """                        tracing::debug!(target: "mdk_core::messages::process_message", "Message cannot be processed (already processed, failed, or epoch invalidated)");
+                        Ok(MessageProcessingResult::Unprocessable {""", """                        tracing::debug!(target: "mdk_core::messages::process_message", "Message cannot be processed (already processed, failed, or epoch invalidated)");
+                        processed_message.state = message_types::ProcessedMessageState::Processed;
+                        let _ = self.storage().save_processed_message(processed_message.clone());
+                        Ok(MessageProcessingResult::Unprocessable {""")]),
+    ("c07-invalidate-before-rollback", ["C07"], [], [(CORE + "messages/error_handling.rs", """                if is_better {
+                    tracing::info!("Found better commit for epoch {}. Rolling back.", msg_epoch);
+""", """                if is_better {
+                    tracing::info!("Found better commit for epoch {}. Rolling back.", msg_epoch);
+                    let _ = self
+                        .storage()
+                        .invalidate_messages_after_epoch(&group.mls_group_id, msg_epoch);
+""")]),
+    ("c08-incoming-lookup-by-pubkey", ["C08"], [], [(CORE + "messages/decryption.rs", "            .find_group_by_nostr_group_id(&nostr_group_id)\n            .map_err(|_e| Error::Group(\"Storage error while finding group\".to_string()))?", "            .find_group_by_nostr_group_id(&event.pubkey.to_bytes())\n            .map_err(|_e| Error::Group(\"Storage error while finding group\".to_string()))?")]),
+    ("c08-memory-index-not-written", ["C08"], [], [(MEM + "groups.rs", "        nostr_id_cache.put(group.nostr_group_id, group);\n", "        let _ = (&nostr_id_cache, &group);\n")]),
+    ("c17-image-context-collision", ["C17"], [], [(CORE + "extension/group_image.rs", 'const UPLOAD_KEYPAIR_CONTEXT_V2: &[u8] = b"mip01-blossom-upload-v2";', 'const UPLOAD_KEYPAIR_CONTEXT_V2: &[u8] = b"mip01-image-encryption-v2";')]),
+    ("c17-epoch-hint-skips-hash-check", ["C17"], [], [(CORE + "encrypted_media/manager.rs", """            epoch
+        );
+
+        Self::decrypt_and_verify(encrypted_data, &key, reference)""", """            epoch
+        );
+
+        decrypt_data_with_aad(
+            encrypted_data,
+            &key,
+            &Secret::new(reference.nonce),
+            &reference.scheme_version,
+            &reference.original_hash,
+            &reference.mime_type,
+            &reference.filename,
+        )""")]),
+    ("c18-comparator-id-first", ["C18", "C10"], [], [(TR + "messages/types.rs", """        a_created_at
+            .cmp(&b_created_at)
+            .then_with(|| a_processed_at.cmp(&b_processed_at))
+            .then_with(|| a_id.cmp(&b_id))""", """        a_created_at
+            .cmp(&b_created_at)
+            .then_with(|| a_id.cmp(&b_id))
+            .then_with(|| a_processed_at.cmp(&b_processed_at))""")]),
+    ("c18-pointer-uses-created-at-only", ["C18"], [], [(TR + "groups/types.rs", """                Message::compare_display_keys(
+                    message.created_at,
+                    message.processed_at,
+                    message.id,
+                    existing_at,
+                    existing_processed_at,
+                    existing_id,
+                )
+                .is_gt()""", """                {
+                    let _ = (existing_processed_at, existing_id);
+                    message.created_at > existing_at
+                }""")]),
+    ("c15-from-raw-swaps-name-description", ["C15"], [], [(CORE + "extension/types.rs", """            name: String::from_utf8(raw.name)?,
+            description: String::from_utf8(raw.description)?,
+            admins,""", """            name: String::from_utf8(raw.description)?,
+            description: String::from_utf8(raw.name)?,
+            admins,""")]),
+    ("c15-from-raw-version-zero-accepted", ["C15"], [], [(CORE + "extension/types.rs", """        if raw.version == 0 {
+            return Err(Error::InvalidExtensionVersion(raw.version));
+        }
+""", "")]),
     ("c20-no-prune-after-hydration", ["C20"], [], [(CORE + "epoch_snapshots.rs", """        // Enforce retention limit after hydration
         while queue.len() > self.retention_count {
             if let Some(old_snap) = queue.pop_front() {
